@@ -399,7 +399,10 @@ def run_invariance():
     """one source under every setting and route: one hash"""
     for shape, route_sets in (([9, 10, 6], [('numpy', LAYOUTS_3D), ('segy', LAYOUTS_3D[:6] if quick else LAYOUTS_3D),
                                             ('segy_rio', LAYOUTS_3D[6:10] if quick else LAYOUTS_3D)]),
-                              ([21, 7], [('2d', LAYOUTS_2D)])):
+                              ([21, 7], [('2d', LAYOUTS_2D)]),
+                              # an irregular survey with absent traces in its first, third and fifth group of 4 inlines
+                              # (whatever the hash of such a source is defined to be, it is one value for all blockshapes)
+                              ([19, 6, 5], [('irregular', [(4, (4, 4, -1)), (8, (8, 8, 64)), (4, (16, 16, 32)), (8, (4, 8, 128)), (4, (8, 4, 256)), (16, (4, 4, -1))])])):
         sd = rng.randrange(2 ** 31)
         seen = {}
         for route, layouts in route_sets:
@@ -408,6 +411,8 @@ def run_invariance():
                     R.notes.append('invariance sweep cut short by the time budget')
                     break
                 c = dict(route=route, shape=shape, bpv=bpv, bs=list(bs), seed=sd)
+                if route == 'irregular':
+                    c['holes'] = [[0, 0], [2, 3], [9, 1], [10, 4], [13, 2], [17, 3], [18, 5]]
                 h = run_case(c)
                 if h is not None:
                     seen.setdefault(h, []).append((route, bpv, bs))
